@@ -440,7 +440,25 @@ Example C07_kernel_computes :
     = Some (11, 12).
 Proof. repeat split; vm_compute; reflexivity. Qed.
 
+(** * the bounds of the UC integer decision space *)
+Lemma kuc_int_bounds_model nc np nm nx : kuc_int_bounds nc np nm nx = uc_int_bounds nc np nm nx.
+Proof. reflexivity. Qed.
+Theorem kuc_int_bounds_spec : forall nc np nm npg nx,
+  proto_args_ok nc np (MArray nm) npg = true ->
+  exists b, kuc_int_bounds nc np nm nx = Some b /\
+    b = (repeat 0%Z nx, repeat (Z.of_nat np * sumZ nm)%Z nx) /\ length (fst b) = nx /\ length (snd b) = nx /\
+    (Z.of_nat nc <= Z.of_nat np * sumZ nm)%Z /\ (0 < Z.of_nat np * sumZ nm)%Z /\
+    (forall x, length x = nx -> Forall (fun v => 0 <= v)%Z x -> (sumZ x <= sumZ nm)%Z -> in_bounds b x = true).
+Proof.
+  intros nc np nm npg nx H. rewrite kuc_int_bounds_model.
+  destruct (uc_int_upper_covers_design nc np nm npg H) as (H1 & H2 & H3 & Hnp & Hnm). unfold uc_int_upper in H2, H3.
+  eexists. split; [apply uc_int_bounds_total|]. split; [reflexivity|]. cbn [fst snd]. rewrite !repeat_length.
+  split; [reflexivity|]. split; [reflexivity|]. split; [lia|]. split; [exact H3|].
+  intros x Lx Hx Hs. exact (uc_int_bounds_admit_every_allocation nc np nm nx _ x Hnp Hnm (uc_int_bounds_total nc np nm nx) Lx Hx Hs).
+Qed.
+
 Print Assumptions kcfg_integer_spec.
+Print Assumptions kuc_int_bounds_spec.
 Print Assumptions kselect_mo_spec.
 Print Assumptions kxmapix_spec.
 Print Assumptions kproto_args_accepted_by_cfg.
